@@ -152,10 +152,8 @@ def build_call(op, site, inp):
         args = [phi] + fs + gs
         watched = ([('proportions', vec)] if vec is not None else [('f[%d]' % (k + 1), f) for k, f in enumerate(fs)]) \
             + [('grid[%d]' % (k + 1), g) for k, g in enumerate(gs)]
-        if op == 'pulse':
-            if 'in place' not in (fn.__doc__ or ''):
-                raise common.MachineryError('%s is not documented as altering phi in place' % name)
-            inplace = 0
+        if op == 'pulse' and 'in place' in (fn.__doc__ or ''):
+            inplace = 0           # "Alters phi in place and returns the new version": phi is not watched
         else:
             watched = [('phi', phi)] + watched
     elif op == 'remove':
@@ -867,6 +865,10 @@ def mutate(rec):
     return rec
 
 
+def _num(v):
+    return repr(float.fromhex(v)) if 'x' in v else v
+
+
 def _changed(rec):
     """Description only (the verdict is TLC's): the first differing element of each changed argument."""
     a = rec['out'].get('args', {})
@@ -874,7 +876,7 @@ def _changed(rec):
     for b, c in zip(a.get('before', []), a.get('after', [])):
         if b != c:
             d = [k for k in range(min(len(b['v']), len(c['v']))) if b['v'][k] != c['v'][k]]
-            out.append('%s %s(%s): %s' % (b['name'], b['kind'], b['dtype'], 'element %d was %s, is %s' % (d[0], b['v'][d[0]], c['v'][d[0]]) if d
+            out.append('%s %s(%s): %s' % (b['name'], b['kind'], b['dtype'], 'element %d was %s, is %s' % (d[0], _num(b['v'][d[0]]), _num(c['v'][d[0]])) if d
                                           else 'type / shape %s %s %s -> %s %s %s' % (b['kind'], b['dtype'], b['sh'], c['kind'], c['dtype'], c['sh'])))
     return '; '.join(out)
 
